@@ -145,12 +145,12 @@ func init() {
 }
 
 // DqCore: the documents used for depth-3 exploration (one per structural family).
-var DqCore = []string{Dq[0], Dq[1], Dq[2], Dq[3], Dq[6], Dq[7], Dq[12], Dq[13]}
+var DqCore = []string{Dq[0], Dq[2], Dq[3], Dq[13]}
 
 // alphabets of the depth-3 phases: full first operation, reduced second and third
 var (
-	midLevel  = &AlphaCfg{Values: v2, ReplValues: []*rj.Value{patchValues[2], patchValues[5]}} // replace by null and by {"k":null}
-	lastLevel = &AlphaCfg{Values: v1n, ReplValues: v1n, Kinds: kinds("test", "remove", "copy", "move")}
+	midLevel  = &AlphaCfg{Values: v2, ReplValues: []*rj.Value{patchValues[2], patchValues[5]}, MaxFroms: 5} // replace by null and by {"k":null}
+	lastLevel = &AlphaCfg{Values: v1n, ReplValues: v1n, Kinds: kinds("test", "remove", "copy", "move"), MaxFroms: 5}
 )
 
 // deepPhase: p's depth-3 companion on DqCore (thorough tier).
@@ -160,7 +160,11 @@ func deepPhase(p *seqProp, first *AlphaCfg, docs []string) *seqProp {
 	d.Depth = 3
 	m, l := *midLevel, *lastLevel
 	m.NoRootAdd, l.NoRootAdd = first.NoRootAdd, first.NoRootAdd
-	d.Alpha = []*AlphaCfg{first, &m, &l}
+	f := *first
+	if f.MaxFroms == 0 {
+		f.MaxFroms = 10
+	}
+	d.Alpha = []*AlphaCfg{&f, &m, &l}
 	d.Rule = "DEPTH 3 on " + fmt.Sprint(len(docs)) + " core documents: full alphabet for the first operation, {1,null} values (replace: null, {\"k\":null}) for the second, {test, remove, copy, move} for the third; same oracle"
 	return &d
 }
@@ -198,7 +202,7 @@ func init() {
 			Rule: "as C01 (SupportNegativeIndices on), judged with ORDERED equality: member order must equal the reference's " +
 				"(survivors keep relative order, created members appended in creation order, replace/add-on-existing keep position) and every number literal must be byte-identical; includes the empty patch on every document"}
 		if tier == "thorough" {
-			return []*seqProp{p, deepPhase(p, &AlphaCfg{}, append(append([]string(nil), DqCore...), Dq[4], Dq[11]))}
+			return []*seqProp{p, deepPhase(p, &AlphaCfg{}, append(append([]string(nil), DqCore...), Dq[4]))}
 		}
 		return []*seqProp{p}
 	}, 150*time.Second, 25*time.Minute)
@@ -209,6 +213,9 @@ func init() {
 		for _, neg := range []bool{true, false} {
 			for _, am := range []bool{false, true} {
 				for _, lim := range []int64{0, 6} {
+					if !neg && tier != "thorough" && (am == (lim == 6)) {
+						continue // quick: with negatives off only (strict, limit 6) and (tolerant, no limit)
+					}
 					opts = append(opts, r69.Options{Neg: neg, AllowMissing: am, Limit: lim, EscapeHTML: true})
 				}
 			}
@@ -217,7 +224,7 @@ func init() {
 		docs := []string{Dq[0], Dq[1], Dq[2], Dq[3], Dq[6], Dq[7]}
 		a := &AlphaCfg{Values: v3, ReplValues: v2}
 		p := &seqProp{ID: "C08", Docs: docs, Opts: opts, Depth: 2, Alpha: []*AlphaCfg{a}, Judge: judgeC08,
-			Rule: "all sequences <= depth over Sigma(D) (3 value shapes) under 10 option combinations that change failure causes " +
+			Rule: "all sequences <= depth over Sigma(D) (3 value shapes) under 8 (thorough 10) option combinations that change failure causes " +
 				"(negatives, AllowMissingPathOnRemove, copy limit, EnsurePathExistsOnAdd); every failing sequence is judged for (nil document, non-nil error, " +
 				"errors.Is/As class vs. the reference's cause) and re-run with each of 6 further operations appended (outcome must be identical)"}
 		if tier == "thorough" {
@@ -231,7 +238,7 @@ func init() {
 	registerSeqMulti("C13", func(tier string) []*seqProp {
 		opts := optsNeg(r69.Options{AllowMissing: true, EscapeHTML: true})
 		a := &AlphaCfg{Values: v3, ReplValues: v1n, InteriorNeg: true}
-		a2 := &AlphaCfg{Values: v3, ReplValues: v1n}
+		a2 := &AlphaCfg{Values: v2, ReplValues: v1n, MaxFroms: 8}
 		p := &seqProp{ID: "C13", Docs: Dq, Opts: opts, Depth: 2, Alpha: []*AlphaCfg{a, a2}, Judge: judgeC13,
 			Rule: "option on x negatives on/off x all sequences <= depth (removes of existing / absent-member / out-of-range / absent-ancestor targets mixed with all other operations); " +
 				"each judged against the reference AND differentially on the real code: Apply(on, P) must equal Apply(off, P minus the removes the reference marks skipped) in bytes or in error"}
@@ -253,7 +260,7 @@ func init() {
 			el = 4
 		}
 		first := &AlphaCfg{EnsureLen: el, Values: []*rj.Value{patchValues[0], patchValues[5]}}
-		p := &seqProp{ID: "C14", Docs: docs, Opts: opts, Depth: 2, Alpha: []*AlphaCfg{first, {Values: v2, ReplValues: v1n}}, Judge: judgeC14,
+		p := &seqProp{ID: "C14", Docs: docs, Opts: opts, Depth: 2, Alpha: []*AlphaCfg{first, {Values: v2, ReplValues: v1n, MaxFroms: 6}}, Judge: judgeC14,
 			Rule: "option on: every add path of 1..L tokens over {a, b, 'a/b', 'm~~n', 0, 1, 2} ('-' as last token only) x 2 values on documents in which every prefix length is already present, " +
 				"followed by every further operation of Sigma(D); judged against reference ensure+add with ORDERED equality (frame: nothing off the path changes), " +
 				"lookup of the value at the path in the output, and agreement with plain add wherever plain add succeeds"}
@@ -306,7 +313,7 @@ func init() {
 				"sequences whose first inapplicable operation is a failed test, a remove/move of an absent target or an out-of-range index must return an error and no document; other failures are outside the stated domain"}
 		if tier == "thorough" {
 			p.Docs = append(p.Docs, Dq[12], Dq[13])
-			return []*seqProp{p, deepPhase(p, a, []string{Dq[0], Dq[1], Dq[2], Dq[3], Dq[6], Dq[7], Dq[10]})}
+			return []*seqProp{p, deepPhase(p, a, []string{Dq[0], Dq[2], Dq[3], Dq[10]})}
 		}
 		// a small depth-3 phase on every change (it found the copied-null defect of the legacy package)
 		mini := deepPhase(p, &AlphaCfg{NoRootAdd: true, Values: v2, ReplValues: []*rj.Value{patchValues[2], patchValues[5]}, Kinds: kinds("add", "replace", "remove", "move")},
